@@ -130,7 +130,23 @@ impl Engine for SerEngine {
                             let mut vm_b = new_vm(409600, 256, 256);
                             let v2 = vm_b.insert_value(&back).unwrap();
                             let t2 = read_back(v2, 12).tok();
-                            if t2 == ov.tok() { "same".into() } else { format!("diff {t2}") }
+                            // the same insertion with a collection forced at every allocation point
+                            // (swept objects are poisoned): partially built values must stay alive
+                            let mut vm_c = new_vm(409600, 256, 256);
+                            cao_lang::verif::set_gc_schedule(cao_lang::verif::GcSchedule::Every);
+                            let v3 = vm_c.insert_value(&back);
+                            cao_lang::verif::set_gc_schedule(cao_lang::verif::GcSchedule::None);
+                            let t3 = match v3 {
+                                Ok(v) => read_back(v, 12).tok(),
+                                Err(e) => format!("err:{e:?}"),
+                            };
+                            if t2 != ov.tok() {
+                                format!("diff {t2}")
+                            } else if t3 != ov.tok() {
+                                format!("diff-under-forced-gc {t3}")
+                            } else {
+                                "same".into()
+                            }
                         }
                     }
                 }
